@@ -134,9 +134,9 @@ def run(ctx):
         good = len(hm) == 1 and len(pr) == 1 and len(ms) == 1
         if good:
             key, data = resolve(st, hm[0][2][0]), resolve(st, hm[0][2][1])
-            arr = [n for n in walk(data) if n[0] == 'agg' and n[1] == 'array']
-            order_ok = bool(arr) and len(arr[0][3]) == 2 and ('param', 3) in list(walk(arr[0][3][0])) and ('param', 4) in list(walk(arr[0][3][1])) \
-                and ('param', 4) not in list(walk(arr[0][3][0]))
+            parts = byte_parts(data)
+            order_ok = len(parts) == 2 and ('param', 3) in list(walk(parts[0])) and ('param', 4) in list(walk(parts[1])) \
+                and ('param', 4) not in list(walk(parts[0]))
             le = any(n[0] == 'agg' and n[1] == 'model::data::Value' and n[2] == 'LE' for n in walk(data))
             inp = resolve(st, pr[0][2][1])
             rng = [n for n in walk(inp) if n[0] == 'agg' and n[1] == 'std::ops::Range']
@@ -202,10 +202,10 @@ def run(ctx):
                 ctx.fail('R16.3', '%s:shape' % fn, '%s no longer hashes one constant selected by is_client' % fn, b.where())
                 continue
             data = resolve(st, md[0][2][0])
-            arr = [n for n in walk(data) if n[0] == 'agg' and n[1] == 'array']
-            consts = [c[2] for c in consts_in(data) if isinstance(c[2], str) and 'magic constant' in c[2]]
+            parts = byte_parts(data)
+            consts = [p[2] for p in parts if p[0] == 'const' and isinstance(p[2], str) and 'magic constant' in p[2]]
             want = MAGIC[(fn, isc[0])]
-            order_ok = bool(arr) and len(arr[0][3]) == 2 and unwrap_cast(arr[0][3][0]) == ('param', 1)
+            order_ok = len(parts) == 2 and parts[0] == ('param', 1) and parts[1][0] == 'const'
             seen.add(isc[0])
             ctx.check(len(consts) == 1 and want + '\\x00' in consts[0] and order_ok and ret_kind(v) == 'call:nla::ntlm::md5', 'R16.3', '%s:%s' % (fn, isc[0]),
                       '%s(is_client=%s) = MD5(exported_session_key || "%s\\0")' % (fn, isc[0], want), b.where(),
